@@ -38,20 +38,33 @@ if os.path.exists(rp):
     if skipped:
         out.append("Skipped (not test-passing or pattern no longer present): " + ", ".join("`%s` (%s)" % (r["name"], r.get("status")) for r in skipped) + ".\n")
 # ---- independent mutations
+def round_of(i):
+    m = re.search(r"-m(r(\d)\d+|\d+)$", i)
+    if not m:
+        return "?"
+    return m.group(2) if m.group(2) else "1"
 metas = [json.load(open(f)) for f in sorted(glob.glob(os.path.join(V, "seeded", "*", "meta.json")))]
 if metas:
     ok = [m for m in metas if m["confirmed_here"]["existing_tests_pass_with_patch"] and m["confirmed_here"]["demo_fails_with_patch"] and m["confirmed_here"]["demo_passes_without_patch"]]
     tgt = [m for m in ok if m["detected_by_target_check"]]
     anyc = [m for m in ok if m["detected_by"]]
-    out.append("**Independent mutations** (`/verif/seeded/`, written by sub-agents that were given only the property text and a scratch worktree; each confirmed here: existing tests pass with the patch, the author's demonstration fails with it and passes without): %d kept; **%d detected by the check of the property they were written against, %d detected by at least one check**.\n" % (len(ok), len(tgt), len(anyc)))
-    out.append("| id | what it needs to manifest | detected by | first clause of the target check |")
+    out.append("**Independent mutations** (`/verif/seeded/`, written by sub-agents that were given only the property text and a scratch worktree; each confirmed here: existing tests pass with the patch, the author's demonstration fails with it and passes without): %d kept; **%d detected by the check of the property they were written against, %d detected by at least one check** (checks as they are now, seeded runs / 5; `tools/reeval.py`).\n" % (len(ok), len(tgt), len(anyc)))
+    out.append("| round | kept | detected by the target check | detected by some check |")
+    out.append("|---|---|---|---|")
+    for r in sorted(set(round_of(m["id"]) for m in ok)):
+        rr = [m for m in ok if round_of(m["id"]) == r]
+        out.append("| %s | %d | %d | %d |" % (r, len(rr), sum(1 for m in rr if m["detected_by_target_check"]), sum(1 for m in rr if m["detected_by"])))
+    out.append("")
+    out.append("Changes not reported by the check of the property they were filed under (every one is reported by the check of the property it actually breaks; see the note in its `meta.json`):\n")
+    out.append("| id | what it needs to manifest | detected by | why not by the target check |")
     out.append("|---|---|---|---|")
     for m in ok:
-        fc = m["first_violation_reported"].get(m["breaks_property"], "")
-        mm = re.match(r"clause (\S+):", fc)
-        note = " (see note in meta.json)" if m.get("note") else ""
-        out.append("| `%s` | %s | %s%s | %s |" % (m["id"], m["needs_to_manifest"][:160].replace("|", "/").replace("\n", " "), ", ".join(m["detected_by"]) or "**none**", note, mm.group(1) if mm else ""))
+        if m["detected_by_target_check"]:
+            continue
+        out.append("| `%s` | %s | %s | %s |" % (m["id"], m["needs_to_manifest"][:200].replace("|", "/").replace("\n", " "), ", ".join(m["detected_by"]) or "**none**", (m.get("note") or "").replace("|", "/")[:400]))
     out.append("")
+    out.append("All kept changes with the first clause the target check reports: " + "; ".join(
+        "`%s` %s" % (m["id"], (re.match(r"clause (\S+):", m["first_violation_reported"].get(m["breaks_property"], "")) or [None, "-"])[1]) for m in ok) + ".\n")
 # ---- independent behaviour-preserving variants
 vmetas = [json.load(open(f)) for f in sorted(glob.glob(os.path.join(V, "variants", "*", "meta.json")))]
 if vmetas:
@@ -66,8 +79,10 @@ if vmetas:
     out.append("| id | what changed | alarms | triage |")
     out.append("|---|---|---|---|")
     for m in good:
-        out.append("| `%s` | %s | %s | %s |" % (m["id"], m["summary"][:170].replace("|", "/").replace("\n", " "), ", ".join(m["alarms"]) or "none", triage.get(m["id"], "")))
+        if m["alarms"]:
+            out.append("| `%s` | %s | %s | %s |" % (m["id"], m["summary"][:220].replace("|", "/").replace("\n", " "), ", ".join(m["alarms"]), triage.get(m["id"], "")))
     out.append("")
+    out.append("Silent on all ten checks: " + ", ".join("`%s`" % m["id"] for m in good if not m["alarms"]) + ".\n")
 # ---- evidence summary
 out.append("**Last recorded runs of the checks on the repaired tree** (from `/verif/evidence/*.json`):\n")
 out.append("| property | tier | seed | runs | distinct non-trivial | sim steps | wall s | violations |")
